@@ -151,12 +151,48 @@ static void dumpFailingInput(const std::string &key, const std::string &parser, 
     char hx[20]; snprintf(hx, sizeof hx, "%08llx", (unsigned long long)(h.a & 0xffffffffull));
     std::string path = g_failDir + "/" + sanitize(key) + "__" + sanitize(parser) + "__" + hx + ".xml";
     if (FILE *f = fopen(path.c_str(), "w")) {
-        fprintf(f, "<!-- key=%s parser=%s input=%s -->\n", key.c_str(), parser.c_str(), what.c_str());
+        fprintf(f, "<!-- key=%s parser=%s input=%s -->\n", key.c_str(), parser.c_str(), what.c_str());   // what = doc|mutation|note
         fwrite(in.constData(), 1, in.size(), f);
         fputc('\n', f);
         fclose(f);
     }
 }
+
+// Where two trees first differ: "<element>" (children differ), "<element>@<attr>" (attribute differs) or "<element>#text".
+// Only used to tell distinct causes under one key apart (replay text, triage); never part of a key.
+static std::string diffSig(const QDomElement &a, const QDomElement &b, int depth = 0)
+{
+    auto nm = [](const QDomElement &e) { return (e.localName().isEmpty() ? e.tagName() : e.localName()).toStdString(); };
+    if (depth > 150) return nm(a);
+    std::map<QString, QString> aa, ab;
+    auto attrs = [](const QDomElement &e, std::map<QString, QString> &m) {
+        auto am = e.attributes();
+        for (int i = 0; i < am.count(); i++) { auto x = am.item(i).toAttr(); if (x.nodeName() == u"xmlns" || x.nodeName().startsWith(u"xmlns:")) continue; m[x.nodeName()] = x.value(); }
+    };
+    attrs(a, aa); attrs(b, ab);
+    for (auto &kv : aa) if (!ab.count(kv.first) || ab[kv.first] != kv.second) return nm(a) + "@" + kv.first.toStdString();
+    for (auto &kv : ab) if (!aa.count(kv.first)) return nm(a) + "@" + kv.first.toStdString();
+    auto kids = [](const QDomElement &e, std::vector<QDomElement> &v, QString &text) {
+        for (auto c = e.firstChild(); !c.isNull(); c = c.nextSibling()) { if (c.isElement()) v.push_back(c.toElement()); else if (c.isText() || c.isCDATASection()) text += c.nodeValue(); }
+    };
+    std::vector<QDomElement> ka, kb; QString ta, tb;
+    kids(a, ka, ta); kids(b, kb, tb);
+    if (ta != tb) return nm(a) + "#text";
+    if (ka.size() != kb.size()) {
+        // name the first child present on one side only
+        for (size_t i = 0; i < std::max(ka.size(), kb.size()); i++) {
+            if (i >= ka.size()) return nm(a) + "/+" + nm(kb[i]);
+            if (i >= kb.size()) return nm(a) + "/-" + nm(ka[i]);
+            if (nm(ka[i]) != nm(kb[i]) || ka[i].namespaceURI() != kb[i].namespaceURI()) return nm(a) + "/-" + nm(ka[i]);
+        }
+    }
+    for (size_t i = 0; i < ka.size(); i++) {
+        if (nm(ka[i]) != nm(kb[i]) || ka[i].namespaceURI() != kb[i].namespaceURI()) return nm(a) + "/" + nm(ka[i]) + "~" + nm(kb[i]);
+        if (summarizeElement(ka[i]).ordered != summarizeElement(kb[i]).ordered) return diffSig(ka[i], kb[i], depth + 1);
+    }
+    return nm(a);
+}
+static std::string g_shrinkSig;
 
 static void failLine(const std::string &key, const std::string &parser, const std::string &docId, const std::string &mut, const QByteArray &in,
                      const QByteArray &o1, const QByteArray &o2, const QByteArray &o3, const std::string &note)
@@ -166,7 +202,9 @@ static void failLine(const std::string &key, const std::string &parser, const st
     if (!o3.isEmpty()) rep += " o3=" + escLine(o3, 900);
     printf("O FAIL %s\t%s\n", key.c_str(), rep.c_str());
     fflush(stdout);
-    dumpFailingInput(key, parser, docId + "|" + mut, in);
+    std::string sig;
+    if (auto sp = note.find("sig="); sp != std::string::npos) { sig = note.substr(sp + 4); auto e = sig.find(' '); if (e != std::string::npos) sig = sig.substr(0, e); }
+    dumpFailingInput(key + (sig.empty() ? "" : "|" + sig), parser, docId + "|" + mut, in);
 }
 
 // bytes requested from the allocator (process-wide, Qt included) -- a deterministic cost measure, unlike time
@@ -227,7 +265,7 @@ static void explore(const QByteArray &in, const std::string &docId, const std::s
     st->counters[C_ITEMS]++;
     // a regress document whose id ends in "@<family>" is a replay for that parser family only
     std::string onlyFamily;
-    if (auto at = docId.rfind('@'); at != std::string::npos && docId.rfind("r-", 0) == 0) onlyFamily = docId.substr(at + 1);
+    if (auto at = docId.rfind('@'); at != std::string::npos && (docId.rfind("r-", 0) == 0 || docId.rfind("t-", 0) == 0)) onlyFamily = docId.substr(at + 1);
     QDomElement root = inDoc.documentElement();
     Summary sin = summarizeElement(root);
     const QString ctxNs = root.namespaceURI();
@@ -303,7 +341,7 @@ static void explore(const QByteArray &in, const std::string &docId, const std::s
             disarm();
             st->counters[C_OUT_CHECKED]++;
             if (o2.isEmpty()) {
-                failLine("C01:own-form-roundtrip:" + fam(c.name), c.name, docId, mutDesc, in, o1, o2, {}, "own output parsed to an object that serializes to nothing (rejected by the parser)");
+                failLine("C01:own-form-roundtrip:" + fam(c.name), c.name, docId, mutDesc, in, o1, o2, {}, "sig=rejected own output parsed to an object that serializes to nothing (rejected by the parser)");
                 failed = true;
             } else if (!s2.wellFormed) {
                 failLine("C02:output-not-wellformed:" + fam(c.name), c.name, docId, mutDesc, in, o1, o2, {}, "o2");
@@ -312,7 +350,7 @@ static void explore(const QByteArray &in, const std::string &docId, const std::s
                 if (s2.canaries > sin.canaries && !failed) { failLine("C01:markup-injection:" + fam(c.name), c.name, docId, mutDesc, in, o1, o2, {}, "canary element in o2"); failed = true; }
                 if (s1.ordered != s2.ordered) {
                     if (s1.sorted == s2.sorted) st->counters[C_OWN_ORDER_ONLY]++;
-                    else { failLine("C01:own-form-roundtrip:" + fam(c.name), c.name, docId, mutDesc, in, o1, o2, {}, ""); failed = true; }
+                    else { failLine("C01:own-form-roundtrip:" + fam(c.name), c.name, docId, mutDesc, in, o1, o2, {}, "sig=" + diffSig(r1, r2)); failed = true; }
                 }
                 TestClient::resetIds();
                 st->phase = PH_RUN3;
@@ -327,7 +365,7 @@ static void explore(const QByteArray &in, const std::string &docId, const std::s
                     failed = true;
                 } else if (s2.ordered != s3.ordered) {
                     if (s2.sorted == s3.sorted) st->counters[C_FIX_ORDER_ONLY]++;
-                    else { failLine("C02:not-fixpoint:" + fam(c.name), c.name, docId, mutDesc, in, o1, o2, o3, ""); failed = true; }
+                    else { failLine("C02:not-fixpoint:" + fam(c.name), c.name, docId, mutDesc, in, o1, o2, o3, "sig=" + diffSig(r1, r2)); failed = true; }
                 } else if (o2.size() < 20000 && s2.maxDepth < 200) {
                     // cross-check the hashed comparison with the declaration-level canonical form shared with the Lean side
                     st->counters[C_XCHECK]++;
@@ -388,10 +426,14 @@ static void runItem(const Work &w, int itemIdx, int resumeParser, Status *st, in
 {
     st->item = itemIdx; st->parser = -1; st->phase = PH_PREP;
     switch (w.type) {
-    case W_DOC:
+    case W_DOC: {
         st->counters[C_KIND0 - 1]++;
+        int saved = g_cfg.cpuBudget;
+        if (g_docs[w.doc].id.rfind("t-", 0) == 0) g_cfg.cpuBudget = 600;
         explore(g_docs[w.doc].xml, g_docs[w.doc].id, "", -1, resumeParser, st, samplesLeft, "", false);
+        g_cfg.cpuBudget = saved;
         break;
+    }
     case W_MUT: {
         vh::Rng rng(g_cfg.seed * 1000003ull + uint64_t(w.doc) * 7919ull + uint64_t(w.mut + 1) * 104729ull);
         Node n = g_nodes[w.doc];
@@ -494,23 +536,27 @@ int main(int argc, char **argv)
     auto corpus = loadCorpusFile(root + "/corpus/test_xml.txt");
     if (corpus.empty()) { fprintf(stderr, "corpus %s/corpus/test_xml.txt missing or empty (run tools/extract_corpus.py)\n", root.c_str()); return 3; }
     long rejected = 0;
-    auto add = [&](const std::vector<Doc> &v) {
+    auto add = [&](const std::vector<Doc> &v, bool raw) {
         for (auto &d : v) {
             if (!g_cfg.docs.empty() && d.id.find(g_cfg.docs) == std::string::npos) continue;
             QDomDocument doc;
             if (!doc.setContent(d.xml, true) || doc.documentElement().isNull()) { rejected++; continue; }
             g_docs.push_back(d);
-            g_nodes.push_back(nodeFromDom(doc.documentElement()));
+            if (raw) {   // regress documents are replayed verbatim and never mutated (they may be thousands of levels deep)
+                Summary s = summarizeElement(doc.documentElement());
+                safeClear(doc, s.maxDepth);
+                g_nodes.push_back(Node());
+            } else g_nodes.push_back(nodeFromDom(doc.documentElement()));
         }
     };
-    add(regress); g_nRegress = g_docs.size();
-    add(corpus);
+    add(regress, true); g_nRegress = g_docs.size();
+    add(corpus, false);
     // every distinct descendant element of a corpus document is a document of its own (id <doc>/<path>): this is what feeds the
     // parsers of embedded elements (hash, thumbnail, file share, affiliation, ...) that never occur as a root in the test-suite
     size_t nTop = g_docs.size();
     {
         std::set<std::pair<uint64_t, uint64_t>> seen;
-        for (size_t i = 0; i < nTop; i++) { Summary s = summarizeXml(g_docs[i].xml, QString()); seen.insert({ s.ordered.a, s.ordered.b }); }
+        for (size_t i = g_nRegress; i < nTop; i++) { Summary s = summarizeXml(g_docs[i].xml, QString()); seen.insert({ s.ordered.a, s.ordered.b }); }
         std::function<void(const Node &, const std::string &, const std::string &)> rec = [&](const Node &n, const std::string &id, const std::string &path) {
             int k = 0;
             for (auto &c : n.kids) {
@@ -655,7 +701,13 @@ int main(int argc, char **argv)
             pool.tag = "shrink";
             auto childFn = [&](int, int, int, Status *st) { int sl = 0; explore(doc, "shrink", "", pidx, -1, st, sl, "", true); };
             auto onResult = [&](const ChildResult &r, const QByteArray &out) {
-                for (const QByteArray &line : out.split('\n')) if (line.startsWith("O FAIL ")) { int t = line.indexOf('\t'); keys.insert(line.mid(7, t < 0 ? -1 : t - 7).toStdString()); }
+                for (const QByteArray &line : out.split('\n')) if (line.startsWith("O FAIL ")) {
+                    int t = line.indexOf('\t');
+                    std::string k = line.mid(7, t < 0 ? -1 : t - 7).toStdString();
+                    keys.insert(k);
+                    int sp = line.indexOf(" note=sig=");
+                    if (sp >= 0) { int e = line.indexOf(' ', sp + 10); keys.insert(k + "|" + line.mid(sp + 10, e < 0 ? -1 : e - sp - 10).toStdString()); }
+                }
                 if (r.crashed) { std::string what = classifyCrash(r); if (r.signal == SIGVTALRM) what = "timeout"; keys.insert("C02:crash:" + fam(g_table[pidx].name) + ":" + what); }
             };
             pool.run(1, childFn, onResult, 0);
@@ -709,7 +761,10 @@ int main(int argc, char **argv)
     // ---- stage 0: regress + defaults + every document unmutated
     {
         std::vector<Work> work;
-        for (size_t i = 0; i < g_nRegress; i++) work.push_back({ W_DOC, int(i), -1, -1, -1, 0, 0 });
+        for (size_t i = 0; i < g_nRegress; i++) {
+            if (quick && g_docs[i].id.rfind("t-", 0) == 0) continue;   // "t-" regress documents are expensive: thorough tier only
+            work.push_back({ W_DOC, int(i), -1, -1, -1, 0, 0 });
+        }
         for (size_t p = 0; p < g_table.size(); p++) if (g_table[p].defaultOutput) work.push_back({ W_DEFAULT, 0, -1, -1, int(p), 0, 0 });
         for (size_t i = g_nRegress; i < g_docs.size(); i++) work.push_back({ W_DOC, int(i), -1, -1, -1, 0, 0 });
         runStage("s0", work, 24);
